@@ -156,6 +156,11 @@ def run(ctx):
                 if cfg == 'default' and (quick and ncol > 2):
                     continue
                 jobs.append((ncol, ('first',) + rel, cfg, ctx.seed * 7 + len(jobs)))
+    # wider tables with several constant columns between, before and after the others (every tier)
+    for rel in (('constant', 'dependent', 'constant', 'dependent'), ('constant', 'dependent', 'dependent', 'constant'), ('dependent', 'constant', 'constant', 'dependent'),
+                ('constant', 'constant', 'dependent'), ('dependent', 'constant', 'negative', 'constant', 'dependent'), ('constant', 'weak', 'constant', 'monotone')):
+        for cfg in ('gaussian-class', 'dict', 'kde'):
+            jobs.append((len(rel) + 1, ('first',) + rel, cfg, ctx.seed * 7 + len(jobs)))
     with Pool(16) as pool:
         obs = pool.map(_observe, jobs, chunksize=2)
     verdict = O.run_laws(ctx, 'GaussLaws.corr', 'GaussLaws', [{k: v for k, v in o.items() if k != 'desc'} for o in obs])
